@@ -304,3 +304,30 @@ Section MoveAssign.
       apply Hy. pose proof (rx_inside k _ ltac:(lia) Hr). lia.
   Qed.
 End MoveAssign.
+
+(* ---------- field-wise move assignment between elements (FixedSize / plain lists, unequal
+   non-propagating allocators, the target owns a block) ---------- *)
+From Cntgs Require Import Elem.
+Theorem elem_move_assign_fieldwise_spec L : wf_plist L = true ->
+  forall d src ts td fcs fcd junk nb,
+  tuple_ok L fcs 0 ts -> tuple_ok L fcd 0 td -> cnts_of td = cnts_of ts ->
+  elem_holds L src ts -> elem_holds L d td -> e_aid d <> e_aid src ->
+  (fixed_or_plain L && match e_bid d with Some _ => true | None => false end) = true ->
+  let '(d', src', evs, nb') := elem_move_assign false false L d src junk nb in
+  elem_holds L d' ts /\ e_bid d' = e_bid d /\ e_units d' = e_units d /\ e_aid d' = e_aid d /\
+  e_bid src' = e_bid src /\ nb' = nb.
+Proof.
+  intros Hwf d src ts td fcs fcd junk nb Hts Htd Hcn [Hes Hfs] [Hed Hfd] Hne Hpath.
+  unfold elem_move_assign. cbn [orb].
+  replace (e_aid d =? e_aid src) with false by (symmetry; apply Z.eqb_neq; exact Hne).
+  rewrite Hpath. unfold assign_fl. rewrite Hfs, Hfd.
+  pose proof (ref_move_assign L Hwf ts td fcs fcd Hts Htd Hcn (e_mem src) (e_mem d) 0 0
+                ltac:(split; [lia|apply Z.divide_0_r]) ltac:(split; [lia|apply Z.divide_0_r]) Hes
+                (bidn (e_bid src)) (bidn (e_bid d))) as H.
+  cbv zeta in H.
+  destruct (assign_all true L (bidn (e_bid src)) (bidn (e_bid d)) (ref_fl L ts 0) (ref_fl L td 0)
+              {| m_s := e_mem src; m_d := e_mem d; m_same := false |} (seq 0 (length L))) as [x evs].
+  cbn [fst] in H. destruct H as (H2 & _ & _).
+  unfold elem_holds. cbn [e_mem e_fl e_bid e_units e_aid set_emem]. repeat split; try assumption.
+  rewrite Hfd. unfold ref_fl. rewrite Hcn. reflexivity.
+Qed.
